@@ -45,6 +45,9 @@ class Ctx(object):
         self.loops = []         # symbolic loops executed at a generic index: (k, lo, hi)
         self.ranges = {}        # generic index id -> its range condition
         self.equated = set()
+        self.all_axes = []
+        self.axis_hooks = {}    # id(axis) -> [fn(index term)]: facts instantiated at every index term of the axis
+        self.axis_terms = {}    # id(axis) -> [index terms seen]
         self.counter = itertools.count()
         self.pc = []            # path condition (z3 Bool)
         self.facts = []         # background facts: ranges of generic indices, atom facts, axioms
@@ -780,13 +783,29 @@ class Axis(object):
         elif isinstance(size, int):
             size = SNum(FIN, size, is_int=True)
         self.size = size
+        CTX.all_axes.append(self)
 
     def fresh_index(self, tag="i"):
         """a generic index of this axis.  Its range 0 <= i < size is NOT asserted globally (the axis may be
         empty on this path); users put rng(idx) in front of what they prove or assume."""
         i = CTX.fresh("%s_%s" % (tag, self.name), "int")
         CTX.ranges[i.get_id()] = z3.And(i >= 0, i < self.size.v)
+        self.note_index(i)
         return i
+
+    def note_index(self, i):
+        """i is an index term of this axis: instantiate the axis' quantified facts (sortedness, minimality) at it"""
+        terms = CTX.axis_terms.setdefault(id(self), [])
+        if any(t.get_id() == i.get_id() for t in terms):
+            return
+        terms.append(i)
+        for h in CTX.axis_hooks.get(id(self), []):
+            h(i)
+
+    def add_hook(self, h):
+        CTX.axis_hooks.setdefault(id(self), []).append(h)
+        for t in list(CTX.axis_terms.get(id(self), [])):
+            h(t)
 
     def __repr__(self):
         return "Axis(%s)" % self.name
@@ -1202,7 +1221,8 @@ def sarr_getitem(a, key):
     if not nontrivial:
         return SArr(a.axes, None, a.dtype, a.sel, a.mask, store=a.store, flat=a.flat, tmap=a.tmap)
     # all-scalar -> element
-    if len(nontrivial) == len(a.axes) and all(_index_scalar(a, k, a.axes[d]) is not None and not isinstance(k, (SArr, slice, WhereResult, WhereComp, RangeSel)) for d, k in nontrivial):
+    if len(nontrivial) == len(a.axes) and all(not isinstance(k, (SArr, slice, WhereResult, WhereComp, RangeSel)) and not hasattr(k, "as_sel")
+                                              and _index_scalar(a, k, a.axes[d]) is not None for d, k in nontrivial):
         idx = tuple(_index_scalar(a, k, a.axes[d]) for d, k in nontrivial)
         return a.at(idx)
     dropped = 0
@@ -1213,8 +1233,8 @@ def sarr_getitem(a, key):
             if len(cond.axes) != 1:
                 raise Unsupported("where() of a multi-dimensional array as a single index")
             out = _filter_axis(out, d2, cond)
-        elif isinstance(k, RangeSel):
-            out = _filter_axis_fn(out, d2, k)
+        elif isinstance(k, RangeSel) or hasattr(k, "as_sel"):
+            out = _filter_axis_fn(out, d2, k if isinstance(k, RangeSel) else k.as_sel())
         elif isinstance(k, SArr) and k.dtype == "int":
             out = _fancy(out, d2, k)
         elif isinstance(k, SArr) and k.dtype == "bool":
@@ -1701,7 +1721,14 @@ def arrfn_atom(name, arr, params=(), kinds=(FIN,)):
         get = lambda i: SNum(kinds[0], fv(*i))
     else:
         fk = z3.Function("afn_%s!%d_k" % (name, n), *(sorts + [z3.IntSort()]))
-        get = lambda i: SNum(fk(*i), fv(*i))
+        seen = set()
+
+        def get(i):
+            k = fk(*i)
+            if k.get_id() not in seen:
+                seen.add(k.get_id())
+                CTX.facts.append(z3.Or(*[k == kk for kk in kinds]))
+            return SNum(k, fv(*i))
     out = SArr(arr.axes, get, "float", arr.sel, None, flat=arr.flat)
     at = Atom("afn:" + name, tuple(arr.axes), [(arr.sel, arr._snapshot())], out, extra=params)
     CTX.atoms.append(at)
@@ -1713,7 +1740,41 @@ def _numof(e):
 
 
 def first_true_index(cond):
-    raise Unsupported("first index of a where() result")
+    """np.where(cond)[0][0]: the smallest index at which cond holds (IndexError if there is none)"""
+    if len(cond.axes) != 1 or cond.sel is not None:
+        raise Unsupported("first index of a filtered / multi-dimensional where() result")
+    ax = cond.axes[0]
+    g = cond._snapshot()
+    n = cond.count_true()
+    # the count dominates the indicator at every index term already known for this axis (R3_term)
+    for t in list(CTX.axis_terms.get(id(ax), [])):
+        CTX.facts.append(z3.Implies(z3.And(t >= 0, t < ax.size.v), n.v >= Ite(bz(g((t,)).z), 1, 0)))
+    if not CTX.engine.decide(n.v >= 1):
+        raise IndexError("index 0 is out of bounds for axis 0 with size 0")
+    f = CTX.fresh("first_" + ax.name, "int")
+    CTX.facts.append(z3.And(f >= 0, f < ax.size.v, bz(g((f,)).z)))
+    ax.note_index(f)
+    # minimality, instantiated at every index term of the axis (now and later)
+    ax.add_hook(lambda j: CTX.facts.append(z3.Implies(z3.And(j >= 0, j < f), z3.Not(bz(g((j,)).z)))))
+    return SNum(FIN, f, is_int=True, is_numpy=True)
+
+
+def sorted_facts(arr, strict=True):
+    """precondition 'arr is ascending' for a one-dimensional array: pairwise instances at all index terms of its axis"""
+    ax = arr.axes[0]
+    g = arr._snapshot()
+
+    def hook(j):
+        for t in list(CTX.axis_terms.get(id(ax), [])):
+            if t.get_id() == j.get_id():
+                continue
+            a, b = g((j,)), g((t,))
+            lt = (a.rv() < b.rv()) if strict else (a.rv() <= b.rv())
+            gt = (b.rv() < a.rv()) if strict else (b.rv() <= a.rv())
+            inr = z3.And(j >= 0, j < ax.size.v, t >= 0, t < ax.size.v)
+            CTX.facts.append(z3.Implies(inr, z3.And(z3.Implies(j < t, lt), z3.Implies(t < j, gt), z3.Implies(j == t, a.rv() == b.rv()))))
+    ax.add_hook(hook)
+
 
 
 # ---- sums / means over SArr (used by the numpy shim)
